@@ -20,6 +20,20 @@ package fstree
 //@   ghost var rm *record.Meta = nil
 //@   at after (*Meta).CheckPermission ghost rm = r.meta
 //@   at send Next assert ok && l0 == local && i0 == internal && m0 == rm
+// C02: validity, key prefix and content match guard every record that is sent
+//@   ghost var valid bool = false
+//@   ghost var vm *record.Meta = nil
+//@   ghost var keyOK bool = false
+//@   ghost var kq *query.Query = nil
+//@   ghost var recOK bool = false
+//@   ghost var rq *query.Query = nil
+//@   at after (*Meta).CheckValidity ghost valid = ret0
+//@   at after (*Meta).CheckValidity ghost vm = arg0
+//@   at optional after (*Query).MatchesKey ghost keyOK = ret0
+//@   at optional after (*Query).MatchesKey ghost kq = arg0
+//@   at after (*Query).MatchesRecord ghost recOK = ret0
+//@   at after (*Query).MatchesRecord ghost rq = arg0
+//@   at send Next assert valid && vm == rm && keyOK && kq == q && recOK && rq == q
 // C18: the walk callback only reads files that lie inside the base path
 // (filepath.Walk hands out clean paths: assumed)
 //@   assume isClean(path)
